@@ -128,6 +128,15 @@ def run(ctx):
                 elif 'Vec<u8>' in tys or 'Iter' in tys or '[u8]' in tys:
                     ctx.bad('C12.3-bigint-digits', dinst, 'equal-length magnitudes are compared from the LEAST significant byte (no .rev() on %s): [0,1] (256) compares below [1,0] (1)' % (
                         'either side' if not any(any(x.endswith('::rev') for x in ch_) for ch_ in (c0, c1)) else 'one side'), ctx.where(CB, bb), key='SHAPE:%s:lsb-first' % fn)
+                elif tys.replace('&', '').split(' ')[0] == 'u8':
+                    # digit by digit, by position (the loop of a helper that has been spliced in here): which way do the positions run?
+                    v, why = _digit_walk(P, None, bodies=[CB])
+                    if v == 'ok':
+                        ctx.ok('C12.3-bigint-digits', dinst, 'the digits are walked from the most significant end (%s)' % why, ctx.where(CB, bb))
+                    elif v == 'bad':
+                        ctx.bad('C12.3-bigint-digits', dinst, why, ctx.where(CB, bb), key='SHAPE:%s:lsb-first' % fn)
+                    else:
+                        ctx.undecided('C12.3-bigint-digits', dinst, 'digit walk not recognised (%s)' % why)
                 else:
                     ctx.undecided('C12.3-bigint-digits', dinst, 'comparison of %s not recognised' % tys)
 
@@ -334,10 +343,10 @@ def run(ctx):
                         % base.rsplit('::', 1)[-1], ctx.where(zips[0][0], zips[0][1]), key='SHAPE:%s:zip-without-length' % base)
 
 
-def _digit_walk(P, fn):
+def _digit_walk(P, fn, bodies=None):
     """How does helper `fn` (and its closures) walk two digit slices?  ('ok'|'bad'|'undecided', why)"""
     from ..ranges import canon as _canon
-    bodies = bodies_of_fn(P, fn)
+    bodies = bodies if bodies is not None else bodies_of_fn(P, fn)
     names = [(callee_of(t)[0] or '').rsplit('::', 1)[-1] for B in bodies for _, t in B.calls()]
     reversed_walk = any(n in ('rev', 'rposition', 'next_back', 'rfold') for n in names)
     # index ranges the helper iterates over: Range { start, end } aggregates
